@@ -53,6 +53,8 @@ def run(c):
         run_cfg(c, 'Cleaner_big.cfg', 2, 3, 20000, 20)
     res = vlib.run_harness(['receiveonly'])
     vlib.absorb(c, res)
+    # the cleaner as the sync loop runs it (Worker.Run): failing listings - also request timeouts - do not end it
+    vlib.absorb(c, vlib.run_harness(['cleaner-run'], timeout=300))
     # SendOnce / LoadOnce side: the cleaner is told "committed" only after an own snapshot was stored (LSLoop)
     import loopx
     loopx.run_suite(c, 'C05', with_window=False)
